@@ -101,6 +101,7 @@ type linAn struct {
 	fn     *ssa.Function
 	exprs  map[ssa.Value]lin
 	stored map[string]bool // field names the function stores to (their lengths are not stable)
+	inLen  map[ssa.Value]bool
 }
 
 func newLinAn(b *Body, fn *ssa.Function) *linAn {
@@ -198,6 +199,14 @@ func (a *linAn) lenOf(v ssa.Value) (lin, bool) {
 		}
 	case *ssa.Phi:
 		// all edges the same length form
+		if a.inLen == nil {
+			a.inLen = map[ssa.Value]bool{}
+		}
+		if a.inLen[x] {
+			return linSym("L:phi@" + x.Name()), true
+		}
+		a.inLen[x] = true
+		defer delete(a.inLen, x)
 		var first lin
 		for i, e := range x.Edges {
 			l, ok := a.lenOf(e)
@@ -234,6 +243,13 @@ func (a *linAn) lenOf(v ssa.Value) (lin, bool) {
 	}
 	if p, ok := a.accessPath(v, 0); ok {
 		return linSym("L:" + p), true
+	}
+	// a slice or string value is immutable as an SSA value: its own name is a sound length symbol
+	switch v.Type().Underlying().(type) {
+	case *types.Slice, *types.Basic:
+		if _, isInstr := v.(ssa.Instruction); isInstr {
+			return linSym("L:val@" + v.Name()), true
+		}
 	}
 	return lin{}, false
 }
@@ -533,16 +549,16 @@ func (a *linAn) describeBase(v ssa.Value) string {
 
 // reviewed exceptions: function + collection role -> the invariant relied upon
 var boundsExceptions = map[string]string{
-	"(*lazyNode).nextByte|":               "content-dependent: the raw message is decoder-delimited or gate-validated JSON text, hence non-empty and containing a non-space byte (R-GATE + R-RAW)",
-	"(*lazyNode).equal|result of":         "content-dependent: compact() of a valid JSON value is non-empty (R-GATE, codec contract)",
+	"v5|(*lazyNode).nextByte|":               "content-dependent: the raw message is decoder-delimited or gate-validated JSON text, hence non-empty and containing a non-space byte (R-GATE + R-RAW)",
+	"v5|(*lazyNode).equal|result of":         "content-dependent: compact() of a valid JSON value is non-empty (R-GATE, codec contract)",
 	"(*lazyNode).equal|o.ary.nodes":       "the two lengths are compared immediately before the loop (len(n.ary.nodes) != len(o.ary.nodes) returns false); the loop body only parses descendants of the two trees, never their element slices",
-	"(Patch).add|":                        "content-dependent: op.value().raw is a decoder-delimited JSON value, hence non-empty (R-GATE + R-DISPATCH: add requires value)",
+	"v5|(Patch).add|":                        "content-dependent: op.value().raw is a decoder-delimited JSON value, hence non-empty (R-GATE + R-DISPATCH: add requires value)",
 	"(*partialDoc).remove|d.keys":         "relies on R-KEYS: the key was found in obj (comma-ok) so the scan of keys finds its index (set(keys) = dom(obj))",
 	"(*partialArray).set|d.nodes":         "relies on R-REPLACE: every set on an array is dominated by a successful get of the same container and key, which bounds the index from above",
 	"createArrayMergePatch|local:":        "the decoder fills both local slices; their lengths are compared (len(modifiedDocs) != total returns an error) before the pairwise walk",
 	"createArrayMergePatch|originalDocs":  "the decoder fills both local slices; their lengths are compared (len(modifiedDocs) != total returns an error) before the pairwise walk",
 	"createArrayMergePatch|modifiedDocs":  "the decoder fills both local slices; their lengths are compared (len(modifiedDocs) != total returns an error) before the pairwise walk",
-	"(*lazyNode).isNull|":                 "content-dependent (compact of valid JSON is non-empty)",
+	"v5|(*lazyNode).isNull|":                 "content-dependent (compact of valid JSON is non-empty)",
 	"legacy|(*partialArray).set|":         "relies on R-REPLACE (legacy): set is preceded by a successful get",
 }
 
@@ -688,6 +704,7 @@ func ruleBounds(c *Ctx) {
 func ruleNegIdx(c *Ctx) {
 	for _, b := range c.bodies() {
 		l := c.L
+		b.appendTokenObligation(l)
 		for _, name := range []string{"get", "set", "add", "remove"} {
 			fn := b.method(b.Lib, "partialArray", name)
 			if fn == nil {
@@ -815,5 +832,101 @@ func ruleNegIdx(c *Ctx) {
 				l.add("R-NEGIDX", b.Name, key, b.posOf(optBlk.Instrs[len(optBlk.Instrs)-1]), Discharged, "index < 0 → option tested; option off → non-nil error; no element access reachable from the negative edge except through the option's true edge", true)
 			}
 		}
+	}
+}
+
+
+// appendTokenObligation: the RFC 6902 token "-" (the position after the last
+// element) appends in its own right. It is not an index: the branch taken for
+// it reaches an append of the value onto the element slice and a nil return,
+// without parsing the token as a number and without consulting the
+// negative-index option (with the option off, "-" must still append).
+func (b *Body) appendTokenObligation(l *Ledger) {
+	fn := b.method(b.Lib, "partialArray", "add")
+	if fn == nil || len(fn.Params) < 2 {
+		return
+	}
+	key := "(*partialArray).add: the token \"-\" appends directly, whatever the negative-index setting"
+	var blk *ssa.BasicBlock
+	succ := -1
+	for _, bb := range fn.Blocks {
+		iff, ok := bb.Instrs[len(bb.Instrs)-1].(*ssa.If)
+		if !ok {
+			continue
+		}
+		bo, ok := iff.Cond.(*ssa.BinOp)
+		if !ok || (bo.Op != token.EQL && bo.Op != token.NEQ) {
+			continue
+		}
+		var other ssa.Value
+		if s, ok := strConst(bo.Y); ok && s == "-" {
+			other = bo.X
+		} else if s, ok := strConst(bo.X); ok && s == "-" {
+			other = bo.Y
+		}
+		if other == nil || other != ssa.Value(fn.Params[1]) {
+			continue
+		}
+		blk, succ = bb, 0
+		if bo.Op == token.NEQ {
+			succ = 1
+		}
+	}
+	if blk == nil {
+		l.add("R-NEGIDX", b.Name, key, b.rel(fn.Pos()), Violated, "no branch on key == \"-\": the append token is not recognised (or is handled through the index path)", true)
+		return
+	}
+	// everything reachable from the "-" edge
+	seen := map[*ssa.BasicBlock]bool{}
+	bad := ""
+	appends, retNil := false, false
+	var walk func(bb *ssa.BasicBlock)
+	walk = func(bb *ssa.BasicBlock) {
+		if seen[bb] {
+			return
+		}
+		seen[bb] = true
+		for _, ins := range bb.Instrs {
+			switch x := ins.(type) {
+			case *ssa.Call:
+				if f := x.Call.StaticCallee(); f != nil && stdName(f) == "strconv.Atoi" {
+					bad = "the token is parsed as a number at " + b.posOf(ins) + ": \"-\" is then subject to the index rules"
+				}
+				if bi, ok := x.Call.Value.(*ssa.Builtin); ok && bi.Name() == "append" {
+					if _, fr, ok := fieldLoad(x.Call.Args[0]); ok && fr.Field == "nodes" {
+						appends = true
+					}
+					if u, ok := x.Call.Args[0].(*ssa.UnOp); ok && u.X == ssa.Value(fn.Params[0]) {
+						appends = true // the legacy array type is the slice itself
+					}
+				}
+			case *ssa.FieldAddr:
+				if fieldName(x.X.Type(), x.Field) == "SupportNegativeIndices" {
+					bad = "the negative-index option is consulted at " + b.posOf(ins) + ": with the option off, add at \"-\" fails instead of appending"
+				}
+			case *ssa.UnOp:
+				if g, ok := x.X.(*ssa.Global); ok && g.Name() == "SupportNegativeIndices" {
+					bad = "the package-level negative-index switch is consulted at " + b.posOf(ins)
+				}
+			case *ssa.Return:
+				if len(x.Results) == 1 && isNilConst(x.Results[0]) {
+					retNil = true
+				} else {
+					bad = "the \"-\" branch can return " + describeValue(x.Results[0]) + " at " + b.posOf(ins)
+				}
+			}
+		}
+		for _, s := range bb.Succs {
+			walk(s)
+		}
+	}
+	walk(blk.Succs[succ])
+	switch {
+	case bad != "":
+		l.add("R-NEGIDX", b.Name, key, b.posOf(blk.Instrs[len(blk.Instrs)-1]), Violated, bad, true)
+	case !appends || !retNil:
+		l.add("R-NEGIDX", b.Name, key, b.posOf(blk.Instrs[len(blk.Instrs)-1]), Violated, "the \"-\" branch does not append the value to the element slice and return nil", true)
+	default:
+		l.add("R-NEGIDX", b.Name, key, b.posOf(blk.Instrs[len(blk.Instrs)-1]), Discharged, "key == \"-\" → append(d.nodes, val); return nil — no number parsing, no option on that path", true)
 	}
 }
